@@ -108,7 +108,12 @@ def batch_context(text: str) -> dict:
         ycur = re.search(r"realtype\s*\*\s*(\w+)\s*=\s*y\s*\+\s*(\w+)\s*;", body)
         calls = re.findall(r"\bEval\w*Rates\s*\(\s*(\w+)\s*,\s*([^,]+?)\s*,\s*([^)]+?)\s*\)", body)
         reads = re.findall(r"=\s*(\w+)\s*->\s*\w+\s*;", body)
+        loop = re.search(r"for\s*\(\s*int\s+cur\b", body)
+        kdecl = [mm.start() for mm in re.finditer(r"\brealtype\s+k[ch]?\s*\[[^\]]*\]\s*=\s*\{\s*0(?:\.0*)?\s*\}\s*;", body)]
         out[m.group(1)] = {
+            # the rate arrays are cleared for EVERY system (inside the loop over the systems a thread works on): EvalRates writes only the
+            # coefficients whose window is open
+            "k_cleared_per_system": bool(loop) and bool(kdecl) and all(p_ > loop.start() for p_ in kdecl),
             "calls": len(calls),
             "own_params": bool(own) and all(c[2] == own.group(1) for c in calls) and all(r_ == own.group(1) for r_ in reads),
             "own_state": bool(ycur) and all(c[1] == ycur.group(1) for c in calls),
